@@ -498,3 +498,22 @@ Proof.
   - apply sum_held_nonneg; auto.
   - lia.
 Qed.
+
+(* ------------------------------------------------------------ atomicity of Acquire *)
+
+(* If the waiter were appended in a second critical section, a Release
+   between the decision and the append would be lost: a holds 5 of 10, b asks
+   for 8 and must wait (step says EEnqueue), a releases before b is appended,
+   b is appended afterwards: b is at the head, 10 are available, nobody is
+   left to wake it.  So C12_head_blocked_inv depends on Acquire being one
+   atomic step, which is what the correspondence checks on the code. *)
+Lemma enqueue_must_be_atomic_lemma :
+  let s0 := fst (step (sem_init 10) (Acquire 1 5)) in
+  snd (step s0 (Acquire 2 8)) = [EEnqueue 2 8] /\
+  let s1 := fst (step s0 (Release 5)) in
+  let s2 := enqueue_only s1 2 8 in
+  s_wait s2 = [(2%N, 8)] /\ available s2 = 10 /\ ~ head_blocked s2.
+Proof.
+  cbn zeta. split; [reflexivity|]. split; [reflexivity|]. split; [reflexivity|].
+  unfold head_blocked. vm_compute. intros H. discriminate H.
+Qed.
